@@ -479,6 +479,8 @@ def main(tier, seed, budget):
             r = out[1]
             o = a['observed']
             stats['histories'] += 1
+            stats.setdefault('slow', []).append((round(float(out[2]), 1) if len(out) > 2 else 0.0, a['run_seed'], a['desc'][:4], a['observed'].get('kind'), a['observed'].get('stage'), a['observed'].get('runname'), a['observed'].get('compl')))
+            stats['slow'] = sorted(stats['slow'], reverse=True)[:6]
             stats['ipe'] += int(bool(a.get('ipe')))
             stats['events'] += r['steps']
             kind = 'gen' if o['kind'] == 'gen' else 'fit:' + o['stage']
@@ -538,6 +540,7 @@ def main(tier, seed, budget):
              'sequence of earlier operations).',
         samples=samples, histories=stats['histories'], directed_histories=len(DIRECTED), observed_calls=stats['by_kind'], history_lengths=stats['by_len'],
         earlier_operations=stats['ops'], histories_with_ignore_previous_eqns=stats['ipe'], process_restarts=stats['restarts'], fresh_comparator_worlds=stats['fresh_worlds'],
+        slowest_histories_wall_s=stats.get('slow'),
         seam_events=stats['events'], runs_per_hour=round(3600.0 * stats['histories'] / max(wall, 1e-9)),
         fault_kinds={'F4 history operations': sum(stats['ops'].values()), 'F4 process restarts': stats['restarts']}, selftest=selftest,
         zygote='forked from a zygote that imported third-party libraries only (no ESR code, no warm-up)',
